@@ -18,7 +18,7 @@ UNITS += [
 
 UNITS += [
     Unit(name="c18.arena.reset", props=["C16", "C18"], tu=AR, roots=["asmjit::Arena::reset"], target="Arena_reset",
-         contracts="contracts/c18_arena.h", unwind=70, object_bits=9, quick_defines=["VERIF_MAXSHIFT=12"], thorough_defines=["VERIF_MAXSHIFT=16"],
+         contracts="contracts/c18_arena.h", unwind=10, unwindset=["verif_memset.0:66"], object_bits=9, mem_gb=28, quick_defines=["VERIF_MAXSHIFT=12"], thorough_defines=["VERIF_MAXSHIFT=16"],
          kind="bounded", bound_note="block chain <= 3 blocks, dynamic block list <= 1 block, no static first block",
          trusted=["free: CBMC built-in model", "memset: byte loop stub"]),
 ]
